@@ -24,6 +24,7 @@ import types
 import numpy as _np
 import z3
 
+from . import core as _core
 from .core import (Inconclusive, SBool, SInt, SReal, ShimUnsupported, cur, is_sym, zb, zi, zn)
 
 _SYM = (SBool, SInt, SReal)
@@ -171,7 +172,8 @@ def ite(c, a, b):
     if k == "b":
         return SBool(z3.If(c, zb(a), zb(b)))
     if k == "i":
-        return SInt(z3.If(c, zi(a), zi(b)))
+        wa, wb = getattr(a, "w", None), getattr(b, "w", None)
+        return SInt(z3.If(c, zi(a), zi(b)), wa if wa == wb else None)
     if k == "f":
         return SReal(z3.If(c, z3.ToReal(zn(a)) if zn(a).is_int() else zn(a),
                            z3.ToReal(zn(b)) if zn(b).is_int() else zn(b)))
@@ -791,7 +793,7 @@ def _getitem(a: SArr, key):
     key = _norm_key(key)
     if not _key_has(key, lambda k: _is_symint(k) or _is_symarr(k)):
         r = a.o[_plain_key(key)]
-        return SArr(r, a.kind, a.width) if isinstance(r, _np.ndarray) else _py(r)
+        return SArr(r, a.kind, a.width) if isinstance(r, _np.ndarray) else _typed_scalar(_py(r), a)
     # symbolic boolean mask read: result shape depends on data -> concretise the mask
     if _key_has(key, lambda k: isinstance(k, SArr) and k.kind == "b" and k.has_sym()):
         key = tuple(concretize_array(k) if (isinstance(k, SArr) and k.kind == "b") else k for k in key)
@@ -801,6 +803,58 @@ def _getitem(a: SArr, key):
         return _fancy_get(a, key)
     # basic indexing with symbolic scalar ints
     return _basic_sym_get(a, key)
+
+
+def _typed_scalar(r, a: SArr):
+    """an element taken out of a fixed-width integer array is a numpy scalar of that dtype, not a Python int"""
+    if a.kind == "i":
+        if type(r) is SInt:
+            return SInt(r.e, a.width)
+        if a.width and type(r) is int:
+            return a.dtype.type(_wrap_int(r, *a.width))
+    return r
+
+
+def _scalar_width(x):
+    """(is_typed, width) of a scalar operand: numpy-typed scalars carry their dtype, Python ints do not"""
+    if type(x) is SInt:
+        return (x.w is not None), x.w
+    if isinstance(x, _np.integer):
+        return True, _int_width(x.dtype)
+    return False, None
+
+
+def _typed_scalar_arith(a, b, r):
+    """result of a scalar operation where at least one side is a numpy-typed integer scalar (numpy 1.x rules: typed with typed
+    -> the common dtype; typed with a Python int -> the typed side's dtype if the value fits, else the next that holds it)"""
+    ta, wa = _scalar_width(a)
+    tb, wb = _scalar_width(b)
+    if isinstance(b, (float, SReal, _np.floating)) or isinstance(a, (float, SReal, _np.floating)):
+        return r
+    try:
+        reps = []
+        for x, t, w in ((a, ta, wa), (b, tb, wb)):
+            if t:
+                reps.append(_np.dtype(f"{'int' if w[1] else 'uint'}{w[0]}") if w else _np.dtype(_np.int64))
+            else:
+                reps.append(_dtype_rep(x))
+        if not (ta and tb):
+            # legacy value-based casting looks at the Python scalar's value; result_type needs an array-like for that
+            reps = [(_np.zeros(0, dtype=x) if isinstance(x, _np.dtype) else x) for x in reps]
+        dt = _np.result_type(*reps)
+    except Exception:
+        return r
+    w = _int_width(dt) if dt.kind in "iu" else None
+    if w is None:  # 64-bit result: a mathematical integer in this model
+        v = _core._lit(r.e)
+        return SInt(r.e) if v is None else v
+    out = _wrap_int(r, *w)
+    if type(out) is SInt:
+        return SInt(out.e, w)
+    return dt.type(out)
+
+
+_core._TYPED_SCALAR_HOOK = _typed_scalar_arith
 
 
 def _basic_sym_get(a: SArr, key):
@@ -998,8 +1052,38 @@ def array(x, dtype=None, copy=True, **kw):
     if not _contains_sym(x):
         return _np.array(_real(x), dtype=dtype, **kw)
     k = _kind_of_any(x)
-    r = SArr(_obj(x).copy(), k)
+    r = SArr(_obj(x).copy(), k, _list_width(x) if k == "i" else None)
     return r.astype(dtype) if dtype is not None and (_kind_of_dtype(dtype) != k or _int_width(dtype)) else r
+
+
+def _list_width(x):
+    """dtype numpy would pick for a (nested) list of scalars: fixed-width only if every leaf is a numpy-typed integer scalar"""
+    ws = []
+
+    def walk(v):
+        if isinstance(v, (list, tuple)):
+            for e in v:
+                if not walk(e):
+                    return False
+            return True
+        if isinstance(v, SArr):
+            ws.append(v.dtype if v.kind == "i" else None)
+            return v.kind == "i"
+        if isinstance(v, _np.ndarray):
+            ws.append(v.dtype)
+            return v.dtype.kind in "iu"
+        t, w = _scalar_width(v)
+        if not t:
+            return False
+        ws.append(_np.dtype(f"{'int' if w[1] else 'uint'}{w[0]}") if w else _np.dtype(_np.int64))
+        return True
+
+    if not walk(x) or not ws or builtins.any(w is None for w in ws):
+        return None
+    try:
+        return _int_width(_np.result_type(*ws))
+    except Exception:
+        return None
 
 
 def _filled(shape, v, dtype):
